@@ -36,8 +36,22 @@ func jsonObjectLiterals(p *core.Prog, rel string) []string {
 	return core.SortedKeys(set)
 }
 
-func localStructTags(fn *ssa.Function) map[string]tagInfo {
+func localStructTags(fn0 *ssa.Function) map[string]tagInfo {
 	out := map[string]tagInfo{}
+	// the function and the same-package helpers it calls (an unmarshal helper may hold the struct)
+	fns := []*ssa.Function{fn0}
+	for _, c := range core.Calls(fn0) {
+		if cal := c.Common().StaticCallee(); cal != nil && len(cal.Blocks) > 0 && cal.Pkg == fn0.Pkg {
+			fns = append(fns, cal)
+		}
+	}
+	for _, fn := range fns {
+		localStructTagsIn(fn, out)
+	}
+	return out
+}
+
+func localStructTagsIn(fn *ssa.Function, out map[string]tagInfo) {
 	for _, b := range fn.Blocks {
 		for _, in := range b.Instrs {
 			if al, ok := in.(*ssa.Alloc); ok {
@@ -49,7 +63,6 @@ func localStructTags(fn *ssa.Function) map[string]tagInfo {
 			}
 		}
 	}
-	return out
 }
 
 func c18(r *core.Run) {
